@@ -142,6 +142,39 @@ def run(ctx):
             continue
         traces.append([ev])
     ctx.notes["multisphere_clusters"] = nms
+    # true clusters (within the multi-sphere solver's range): the same energy relations, for polarisations
+    # along and oblique to the axes; forward amplitude from calc_scat_matrix in the documented convention
+    # (E_par = E_x, E_perp = -E_y at azimuth 0; scattered E_x = E_par, E_y = -E_perp)
+    K_ = 2 * math.pi * 1.33 / 0.66
+    geo = [(0.5, 0.1, 0.0), (-0.4, -0.2, 0.3), (0.1, 0.75, -0.2)]
+    kinds = (("pair_real", [1.59, 1.59], [0.35, 0.35]), ("trimer_real", [1.59, 1.45, 1.59], [0.35, 0.2, 0.3]),
+             ("pair_absorbing", [1.59 + 0.05j, 1.5], [0.3, 0.35]))
+    # each cluster call integrates the asymmetry adaptively (~5 s): quick keeps 5 of the 15
+    for kind, ns, rs in (kinds[:1] + kinds[2:] if quick else kinds):
+        cl = Spheres([Sphere(n=n_, r=r_, center=geo[i]) for i, (n_, r_) in enumerate(zip(ns, rs))])
+        fwd = detector_points(theta=np.array([0.0]), phi=np.array([0.0]), r=1e4)
+        for psi in (((0.0, 0.4, 2.2) if kind == "pair_real" else (math.pi / 2, math.pi / 4)) if quick
+                    else (0.0, math.pi / 2, 0.4, math.pi / 4, 2.2)):
+            ctx.case(("cluster", kind, round(psi, 3)), nontrivial=True)
+            px, py = math.cos(psi), math.sin(psi)
+            try:
+                cs = calc_cross_sections(cl, illum_polarization=(px, py), theory=Multisphere(), medium_index=1.33,
+                                         illum_wavelen=0.66).values
+                S0 = calc_scat_matrix(fwd, cl, theory=Multisphere(), medium_index=1.33, illum_wavelen=0.66).values[0]
+            except Exception as e:
+                ctx.violation("cluster/exception", {"kind": kind, "exc": repr(e)[:200]})
+                continue
+            a = S0 @ np.array([px, -py])
+            ext_fwd = 4 * math.pi / K_ ** 2 * (px * a[0] - py * a[1]).real
+            real = all(isinstance(n_, float) for n_ in ns)
+            ev = {"event": "ClusterCrossSections", "cls": "%s/%.3f" % (kind, psi), "layers": "cluster", "xcls": kind,
+                  "oblique": bool(abs(px * py) > 1e-9), "index_real": real,
+                  "mb_ext_is_sum": quant.mb(abs(cs[2] - cs[0] - cs[1]) / abs(cs[2])),
+                  "mb_abs_neg_part": quant.mb(max(0.0, -cs[1]) / abs(cs[2])),
+                  "mb_abs_over_ext": quant.mb(abs(cs[1]) / abs(cs[2])),
+                  "sca_pos": bool(cs[0] > 0), "g_in_range": bool(-1 <= cs[3] <= 1),
+                  "mb_optical_theorem": quant.mb(abs(ext_fwd - cs[2]) / abs(cs[2]))}
+            traces.append([ev])
     verdicts = tracemod.validate(ctx, "CrossSectionsTrace", traces)
     worst = {}
     for tr, (acc, line, clauses) in zip(traces, verdicts):
@@ -153,7 +186,10 @@ def run(ctx):
             ctx.trace_ok()
         else:
             bad = sorted(k for k, v in (clauses or {}).items() if v is False)
-            ctx.violation("relation/%s/%s/%s" % (",".join(bad), ev["layers"], ev["xcls"]), {"event": ev})
+            if ev["event"] == "ClusterCrossSections":
+                ctx.violation("cluster/%s/%s/%s" % (",".join(bad), ev["xcls"], "oblique" if ev["oblique"] else "axis"), {"event": ev})
+            else:
+                ctx.violation("relation/%s/%s/%s" % (",".join(bad), ev["layers"], ev["xcls"]), {"event": ev})
     ctx.notes["worst_mb"] = worst
     ctx.sample({"class": c, "relations": sorted(rels), "event": traces[-1][0] if traces else None})
     ctx.exhaustive = not quick
